@@ -114,6 +114,18 @@ fn enum_pairs(bits: usize, f: &mut dyn FnMut(&Case) -> R) -> R {
     Ok(())
 }
 
+/// all pairs of values whose limbs come from a small alphabet (complete enumeration)
+fn enum_alphabet_pairs(bits: usize, f: &mut dyn FnMut(&Case) -> R) -> R {
+    let alpha: &[u64] = if nlimbs(bits) <= 2 { &LIMB_ALPHABET8 } else { &LIMB_ALPHABET5 };
+    let vals = alphabet_values(bits, alpha);
+    for la in &vals {
+        for lb in &vals {
+            f(&Case::new().l(la.clone()).l(lb.clone()).n(9))?;
+        }
+    }
+    Ok(())
+}
+
 // ------------------------------------------------------------------ exact matrix application
 
 /// (c, d) in exact signed arithmetic from the entries and the sign pattern.
@@ -444,7 +456,7 @@ fn body_u64<const B: usize, const L: usize>(c: &Case, rec: &mut Rec) -> R {
 fn main() {
     let spec = PropSpec {
         id: "C12",
-        rule_text: "pairs (a,b) per width from 5 generator classes: independent alphabet values; pairs built bottom-up from a gcd g in {1, 2^k, large odd, alphabet, 3} and a generated quotient sequence (all 1s = Fibonacci-like; mostly 1s with small random quotients; optionally one huge quotient of 40..200 bits), either order; a = b, b+-1, shifted copies (common 2^k factors); pairs agreeing in their leading 32/64/96/128 bits; (a,0), (0,b), (0,0); exhaustive for BITS <= 7 (all pairs). Prefix matrices: leading words taken from generated quotient sequences, raw alphabet words, or constructed backwards from a quotient sequence so that the final remainders sit on or within 2 of the boundary of one of Jebelean's exactness conditions (a3 = cofactor, a2-a3 = cofactor sum, a1-a2 = cofactor sum), each checked on the prefix and on a generated extension A = a0*2^k + x, B = a1*2^k + y (k in 0..=192, x,y in {random, 0/max, max/0, equal}). Oracle: num-bigint gcd; lcm = a*b/g iff < 2^BITS; Bezout identity mod 2^BITS by `sign`; matrix validity in exact signed arithmetic (c,d >= 0, c >= d, d < b, gcd preserved), `apply`/`apply_u128`/`compose` against exact application. Non-trivial: a, b >= 2^32, a != b and the Lehmer matrix for the pair is not the identity (gcd rules); non-identity prefix matrix (prefix rules); r1 != 0 (from_u64). Distinct by inputs.",
+        rule_text: "pairs (a,b) per width from 5 generator classes: independent alphabet values; pairs built bottom-up from a gcd g in {1, 2^k, large odd, alphabet, 3} and a generated quotient sequence (all 1s = Fibonacci-like; mostly 1s with small random quotients; optionally one huge quotient of 40..200 bits), either order; a = b, b+-1, shifted copies (common 2^k factors); pairs agreeing in their leading 32/64/96/128 bits; (a,0), (0,b), (0,0); exhaustive for BITS <= 7 (all pairs) and for all pairs of values with limbs from {0,1,2,2^63-1,2^63,2^63+1,MAX-1,MAX} (2 limbs) / {0,1,2^63,MAX-1,MAX} (3 limbs) at 6 widths. Prefix matrices: leading words taken from generated quotient sequences, raw alphabet words, or constructed backwards from a quotient sequence so that the final remainders sit on or within 2 of the boundary of one of Jebelean's exactness conditions (a3 = cofactor, a2-a3 = cofactor sum, a1-a2 = cofactor sum), each checked on the prefix and on a generated extension A = a0*2^k + x, B = a1*2^k + y (k in 0..=192, x,y in {random, 0/max, max/0, equal}). Oracle: num-bigint gcd; lcm = a*b/g iff < 2^BITS; Bezout identity mod 2^BITS by `sign`; matrix validity in exact signed arithmetic (c,d >= 0, c >= d, d < b, gcd preserved), `apply`/`apply_u128`/`compose` against exact application. Non-trivial: a, b >= 2^32, a != b and the Lehmer matrix for the pair is not the identity (gcd rules); non-identity prefix matrix (prefix rules); r1 != 0 (from_u64). Distinct by inputs.",
         assumptions: vec![
             "num-bigint / num-integer gcd and signed arithmetic are correct (oracle)",
             "cofactor magnitudes of gcd_extended are not part of the property (only the identity mod 2^BITS)",
@@ -456,6 +468,7 @@ fn main() {
         spec,
         |jobs, _| {
             reg_enum!(jobs, "gcd_all_pairs", enum_pairs, body; [0, 1, 2, 3, 4, 5, 6, 7]);
+            reg_enum!(jobs, "gcd_limb_alphabet", enum_alphabet_pairs, body; [65, 127, 128, 129, 190, 192]);
             w_all!(reg_gen!(jobs, "gcd", 3000, strat, body;));
             reg_gen!(jobs, "gcd", 500, strat, body; [1024]);
             jobs.gen("prefix", 0, 100_000, || strat_prefix(0), body_prefix::<0, 0>);
